@@ -31,6 +31,14 @@ def cases(tier, seed):
     rng = random.Random(seed * 49979687 + 13)
     cfgs = grid_twolevel(48, 10, 5) if th else grid_twolevel(22, 6, 3)
     cfgs += rand_twolevel(rng, 2000 if th else 60, 5000 if th else 500)
+    # long period blocks with several binomial units (deep checkpoint nesting)
+    for p in (18, 24, 35, 48) + ((64, 97, 130) if th else ()):
+        for bs in (3, 4, 6):
+            for tr in ("maximum", "revolve"):
+                cfgs.append({"cls": "TwoLevel", "n": 2 * p + (p // 3) + bs,
+                             "period": p, "bs": bs,
+                             "storage": "RAM" if (p + bs) % 2 else "DISK",
+                             "traj": tr})
     return [S.decorate({"cfg": c, "passes": 3 if th else 2, "observe": None,
                         "rseed": i}, i, seed)
             for i, c in enumerate(cfgs)]
